@@ -17,7 +17,8 @@ import (
 // quarantine instead of going back to the pool at once; when it leaves the
 // quarantine the pattern is verified (a write after release destroys it).
 // Releasing something that is not registered as held (double release,
-// sub-slice, foreign slice) is reported and otherwise ignored.
+// sub-slice) is reported and otherwise ignored; a slice the pool never
+// handed out is reported and then released as without the tag.
 //
 // Events (verifhook.Ev):
 //   buf.get        id, size
@@ -80,6 +81,11 @@ func verifReleaseBuf(b Buffer) {
 		}
 		verifhook.Ev("buf.release", id, false)
 		verifBufs.m.Unlock()
+		if st == nil {
+			// a slice the pool never handed out: keep the original behaviour
+			// (bytespool panics on a capacity that is not one of its classes)
+			bytespool.Release(b)
+		}
 		return
 	}
 	st.held = false
